@@ -96,7 +96,14 @@ func watchdog(dir string) {
 			lastChange = time.Now()
 			continue
 		}
-		if time.Since(lastChange) > 25*time.Second {
+		stalled := time.Since(lastChange) > 25*time.Second
+		if !stalled && time.Since(lastChange) > 4*time.Second {
+			// a computation that also allocates without bound must not eat the machine first
+			var ms runtime.MemStats
+			runtime.ReadMemStats(&ms)
+			stalled = ms.HeapAlloc > 3<<30
+		}
+		if stalled {
 			buf := make([]byte, 1<<22)
 			n := runtime.Stack(buf, true)
 			st := string(buf[:n])
@@ -105,14 +112,25 @@ func watchdog(dir string) {
 			// non-terminating computation in mysync, not harness trouble
 			code := 2
 			for _, g := range strings.Split(st, "\n\n") {
-				if strings.Contains(g, "[running]") || strings.Contains(g, "[runnable]") {
+				hdr, _, _ := strings.Cut(g, "\n")
+				if strings.Contains(hdr, "[running") || strings.Contains(hdr, "[runnable") {
 					if strings.Contains(g, "mysync/internal/app.") && !strings.Contains(g, "verifsim.watchdog") {
 						fmt.Fprintln(os.Stderr, "WATCHDOG: goroutine running inside internal/app for >25s real time")
+						// innermost mysync frame of that goroutine
+						for _, l := range strings.Split(g, "\n") {
+							if strings.HasPrefix(l, "github.com/yandex/mysync/internal/") && !strings.Contains(l, "/verifsim") {
+								if i := strings.LastIndex(l, "("); i > 0 {
+									l = l[:i]
+								}
+								fmt.Fprintln(os.Stderr, "WATCHDOG-FUNC: "+l)
+								break
+							}
+						}
 						code = 3
 					}
 				}
 			}
-			fmt.Fprintln(os.Stderr, "WATCHDOG: controller made no step for 25s")
+			fmt.Fprintf(os.Stderr, "WATCHDOG: controller made no step for %v\n", time.Since(lastChange).Round(time.Second))
 			os.RemoveAll(dir)
 			os.Exit(code)
 		}
